@@ -133,9 +133,9 @@ def model_evaluable(o):
     return True
 
 
-def correspond_values(ctx, obs, name="ValCases"):
+def correspond_values(ctx, obs, name="ValCases", imports=None):
     lines = [value_line(o) for o in obs]
-    okc, idx, clog = ctx.eval_cases(IMPORTS, VALUE_CTYPE, lines, VALUE_AGREE, shard=80, name=name)
+    okc, idx, clog = ctx.eval_cases(imports or IMPORTS, VALUE_CTYPE, lines, VALUE_AGREE, shard=80, name=name)
     return okc, idx, clog
 
 
